@@ -939,6 +939,62 @@ fn matrix_cells(rng: &mut Rng, shard: usize, nshards: usize, budget: usize) -> V
     cells
 }
 
+/// FB instances associated with a task are executed by the scheduler itself (Runtime::register_task with `fb_instances`;
+/// the ST front end has no syntax for it). Faults at every stage of such a call - initialisation of VAR_TEMP locals, body -
+/// must end the cycle like any other fault: value-dependent error, no frame left behind, next cycle runs.
+fn task_bound_fb_cells(sh: &mut Shard) {
+    use trust_runtime::task::TaskConfig;
+    for (label, temps, body) in [
+        ("temp-initialiser-fault", "VAR_TEMP t : INT := a / b; END_VAR", "q := t;"),
+        ("body-fault", "VAR_TEMP t : INT; END_VAR", "t := a / b;\nq := t;"),
+        ("no-fault", "VAR_TEMP t : INT := a; END_VAR", "q := t;"),
+        ("temp-initialiser-overflow", "VAR_TEMP t : INT := a * big; END_VAR", "q := t;"),
+    ] {
+        let text = format!("FUNCTION_BLOCK B\nVAR_INPUT a : INT := INT#7; b : INT; big : INT := INT#32767; END_VAR\n{temps}\nVAR_OUTPUT q : INT; END_VAR\n{body}\nEND_FUNCTION_BLOCK\nPROGRAM Main\nVAR fbi : B; k : INT; END_VAR\nk := k + INT#1;\nEND_PROGRAM\n");
+        let case = json!({"class": "task-bound-fb", "label": label, "text": text});
+        if !sh.begin(&format!("cell|task-bound-fb|{label}"), &case) {
+            continue;
+        }
+        let r = catch(|| -> Result<Vec<(Option<String>, usize)>, String> {
+            let mut h = TestHarness::from_source(&text).map_err(|e| e.to_string())?;
+            let pid = match h.runtime().storage().get_global("Main") {
+                Some(Value::Instance(id)) => *id,
+                _ => return Err("program instance not found".into()),
+            };
+            let fbref = h.runtime().storage().ref_for_instance(pid, "fbi").ok_or("no reference to fbi")?;
+            h.runtime_mut().register_task(TaskConfig { name: "T".into(), interval: Duration::from_millis(1), single: None, priority: 0, programs: vec![], fb_instances: vec![fbref] });
+            let mut out = Vec::new();
+            for _ in 0..3 {
+                h.advance_time(Duration::from_millis(1));
+                let res = h.cycle();
+                out.push((res.errors.first().map(|e| format!("{e:?}")), h.runtime().storage().frames().len()));
+            }
+            Ok(out)
+        });
+        match r {
+            Err(p) => sh.violation(format!("panic|{}", panic_sig(&p)), format!("{p} [task-bound FB {label}]"), case.clone()),
+            Ok(Err(e)) => sh.note(format!("task-bound FB cell {label} not run: {e}")),
+            Ok(Ok(obs)) => {
+                sh.count("task_bound_fb_cells_executed", 1);
+                for (ci, (err, frames)) in obs.iter().enumerate() {
+                    if *frames != 0 {
+                        sh.violation(format!("frames-left|task-bound-fb|{label}"), format!("cycle {ci}: {frames} call frame(s) left after the cycle (error {err:?})"), case.clone());
+                        break;
+                    }
+                    if let Some(e) = err {
+                        let name = e.split(['(', ' ', '{']).next().unwrap_or("");
+                        if !matches!(name, "DivisionByZero" | "ModuloByZero" | "Overflow" | "IndexOutOfBounds" | "NullReference" | "ForStepZero" | "DateTimeRange" | "ExecutionTimeout" | "ResourceFaulted") {
+                            sh.violation(format!("static-class-error|{name}|task-bound-fb|{label}"), format!("cycle {ci}: {e}"), case.clone());
+                            break;
+                        }
+                    }
+                }
+            }
+        }
+        sh.end();
+    }
+}
+
 pub fn run(sh: &mut Shard) {
     let mode = sh.args.get("mode").unwrap_or("c01").to_string();
     if let Some(path) = sh.args.replay.clone() {
@@ -959,6 +1015,9 @@ pub fn run(sh: &mut Shard) {
     let rng = Rng::new(sh.args.shard_seed());
     let (shard, nshards) = (sh.args.shard as usize, sh.args.nshards as usize);
     let empty = vec![CycleIn { dt_ns: 1_000_000, inputs: vec![] }; 3];
+    if mode == "c01" && shard == 0 {
+        task_bound_fb_cells(sh);
+    }
     if mode != "c02" {
         // systematic single-feature cells
         let budget = if thorough { usize::MAX } else { 2500 };
